@@ -97,6 +97,21 @@
 #define rwlock_unlock pthread_rwlock_unlock
 #define rwlock_destroy pthread_rwlock_destroy
 #endif
+
+#if defined(LIBERASURECODE_VERIF) && defined(HAVE_PTHREAD_H)
+/* verification builds only: yield points and lock operations that can hand
+ * over to a harness-owned scheduler (see erasurecode_verif.h, which is not
+ * installed) */
+#include "erasurecode_verif.h"
+#undef rwlock_rdlock
+#undef rwlock_wrlock
+#undef rwlock_unlock
+#define rwlock_rdlock libec_verif_rdlock
+#define rwlock_wrlock libec_verif_wrlock
+#define rwlock_unlock libec_verif_rwunlock
+#else
+#define LIBEC_VERIF_YIELD(p) do { } while (0)
+#endif
 #ifdef HAVE_ERRNO_H
 # include <errno.h>
 #endif
